@@ -23,7 +23,8 @@ RULE = ("G-scope: programs rendered from an abstract scope tree (0-4 let / with 
         "every integer literal is unique in the process; leg doc: every reference and inherited "
         "key is reached by source[k1][k2].. and resolved with Identifier.value on one live "
         "document (all queries in random order, then again: the answer must not depend on what "
-        "was resolved before) and on a fresh parse; leg call: a directly applied function "
+        "was resolved before), on a fresh parse, and again after bindings were added / deleted through "
+        "the mapping API; leg call: a directly applied function "
         "({ formals with defaults }: body) arg, with the argument literal or let-bound, driven "
         "through scopes_for_owner(call) as tests/test_references.py does; leg history: a pool of "
         "live documents created, resolved and discarded in random order with gc, probing fresh "
@@ -241,6 +242,33 @@ def run_docs(spec, res, leg):
                     B.record(res, {"leg": leg, "effect": "live-and-fresh-document-disagree"},
                              {"text": prog.text, "path": q, "order": qs, "leg": leg},
                              f"live {first[tuple(q)]!r} fresh {got!r}")
+            # structural edits through the mapping API between resolutions: the answers must
+            # follow the document (a context attached earlier must not be served stale)
+            if leg == "doc" and qs and rng.random() < 0.4:
+                from nmverif.checks import c11 as _c11
+
+                class _Shim:
+                    pass
+                shim = _Shim()
+                shim.source, shim.text = live, prog.text
+                mutated = False
+                for _ in range(rng.choice([1, 2])):
+                    m = _c11.mutate_structure(rng, prog, shim)
+                    if m is None:
+                        continue
+                    if m[0] == "skip":
+                        mutated = None
+                        break
+                    mutated = True
+                    B.bump(obs["outcome"], "structural-" + m[0])
+                if mutated:
+                    all_ids2 = frozenset(int(x) for x in ID_RE.findall(prog.text))
+                    qs3 = S.queries(prog)
+                    rng.shuffle(qs3)
+                    for q in qs3:
+                        _judge(res, obs, nontriv, prog, q, leg, factory, live, all_ids2, codes, "after-structural-edit")
+                if mutated is not False:
+                    continue   # the original text no longer describes the live document
             # resolution must not have changed the document
             try:
                 after = live.rebuild()
